@@ -10,6 +10,7 @@ def run(tier, seed):
     tmp = scratch_dir("nv-c04-")
     try:
         tlsextra.fingerprint_plumbing_cases(res, tmp)
+        tlsextra.fingerprint_collision_cases(res, tmp, "C04")
     finally:
         shutil.rmtree(tmp, ignore_errors=True)
     return res
